@@ -208,16 +208,18 @@ SCCs along a parallel edge of its own (the demand on a condensation edge is the 
 edges minus the ignored ones, so there are enough paths to give every parallel edge that is not
 ignored to a different one).
 
-Three hypotheses were added to the statement as first written; without any one of them it is false
-(`cwc_needs_closed`, `cwc_needs_no_isolated`, `cwc_needs_nodup` below):
+Two hypotheses were added to the statement as first written; without either of them it is false
+(`FP.cwc_needs_closed`, `FP.cwc_needs_no_isolated`):
 * `hclosed` — edges join nodes of the graph (always true of a networkx graph; the model's `Graph`
   does not enforce it and `condNodes` is computed from the node list);
 * `hinc` — no isolated node (true of an `stDiGraph`: a node of the base graph without in-edges gets a
   source edge, the synthetic nodes have an edge each, `_post_build`); an isolated node is a component
-  `source → k → sink` of the instance along which a flow may send units that no walk can realise;
-* `hnd` — `edges_to_ignore` has no duplicates: `get_width` decrements `edge_multiplicity` once per
-  *entry* of the list, a duplicate lowers the demand below the number of parallel edges left to cover.
-  The code does not enforce this (a caller passing a list with repetitions gets a too small width). -/
+  `source → k → sink` of the instance along which a flow may send units that no walk can realise.
+
+`edges_to_ignore` may contain duplicates: since fix afcb013 `get_width` decrements `edge_multiplicity`
+once per *distinct* ignored edge (before, once per entry: a duplicate lowered the demand below the
+number of parallel edges left to cover and the width came out too small — the former hypothesis
+`c.ignore.Nodup`; regression on the witness of that defect: `FP.cwc_duplicate_ignore_counts_once`). -/
 theorem condensation_flow_to_walkcover (c : CondInput) (w d : List (Edge × Int)) (f : Edge → Nat)
     (cost : Nat)
     (hscc : ∀ u ∈ c.g.nodes, ∀ v ∈ c.g.nodes,
@@ -225,12 +227,11 @@ theorem condensation_flow_to_walkcover (c : CondInput) (w d : List (Edge × Int)
     (hlive : ∀ e ∈ c.g.edges, Reach c.g.edges srcName e.1 ∧ Reach c.g.edges e.2 snkName)
     (hclosed : ∀ e ∈ c.g.edges, e.1 ∈ c.g.nodes ∧ e.2 ∈ c.g.nodes)
     (hinc : ∀ v ∈ c.g.nodes, ∃ e ∈ c.g.edges, e.1 = v ∨ e.2 = v)
-    (hnd : c.ignore.Nodup)
     (hw : c.weightFunction = some w) (hd : c.demands = some d)
     (hf : CoveringFlow c.expandedST (fun e => (lookupD d e 0).toNat) f)
     (hcost : outN c.expandedST.g f c.expandedST.source = cost) :
     HasCover ⟨c.g, srcName, snkName⟩ (c.g.edges.filter fun e => !c.ignore.contains e) [] cost :=
-  FP.cwc_condensation_flow_to_walkcover c w d f cost hscc hlive hclosed hinc hnd hw hd hf hcost
+  FP.cwc_condensation_flow_to_walkcover c w d f cost hscc hlive hclosed hinc hw hd hf hcost
 
 /-- **`stDiGraph.get_width` = minimum walk cover, given the certificate.** a feasible integral flow of
 the instance on the expanded condensation whose cost equals the size of a set of pairwise unreachable
@@ -244,7 +245,6 @@ theorem digraph_width_is_min_walk_cover (c : CondInput) (w d : List (Edge × Int
     (hlive : ∀ e ∈ c.g.edges, Reach c.g.edges srcName e.1 ∧ Reach c.g.edges e.2 snkName)
     (hclosed : ∀ e ∈ c.g.edges, e.1 ∈ c.g.nodes ∧ e.2 ∈ c.g.nodes)
     (hinc : ∀ v ∈ c.g.nodes, ∃ e ∈ c.g.edges, e.1 = v ∨ e.2 = v)
-    (hnd : c.ignore.Nodup)
     (hw : c.weightFunction = some w) (hd : c.demands = some d)
     (hf : CoveringFlow c.expandedST (fun e => (lookupD d e 0).toNat) f)
     (A : List Edge) (hA : A.Nodup)
@@ -252,7 +252,7 @@ theorem digraph_width_is_min_walk_cover (c : CondInput) (w d : List (Edge × Int
     (hun : ∀ e1 ∈ A, ∀ e2 ∈ A, e1 ≠ e2 → ¬ Reach c.g.edges e1.2 e2.1)
     (hcost : outN c.expandedST.g f c.expandedST.source = A.length) :
     IsMinCover ⟨c.g, srcName, snkName⟩ (c.g.edges.filter fun e => !c.ignore.contains e) [] A.length := by
-  refine ⟨condensation_flow_to_walkcover c w d f _ hscc hlive hclosed hinc hnd hw hd hf hcost,
+  refine ⟨condensation_flow_to_walkcover c w d f _ hscc hlive hclosed hinc hw hd hf hcost,
     fun j hj hcov => ?_⟩
   have := antichain_weak_duality ⟨c.g, srcName, snkName⟩ _ [] A
     (antichain_of_unreachable ⟨c.g, srcName, snkName⟩ A hA hun) hAact j hcov
@@ -295,14 +295,14 @@ set_option maxRecDepth 20000 in
 theorem cyc1_cover : HasCover ⟨cyc1.g, srcName, snkName⟩
     (cyc1.g.edges.filter fun e => !cyc1.ignore.contains e) [] 2 :=
   condensation_flow_to_walkcover cyc1 (cyc1.weightFunction.getD []) (cyc1.demands.getD []) cyc1Flow 2
-    cyc1_scc cyc1_live cyc1_closed (by decide) (by decide) (by decide) (by decide) cyc1_flow (by decide)
+    cyc1_scc cyc1_live cyc1_closed (by decide) (by decide) (by decide) cyc1_flow (by decide)
 
 set_option maxRecDepth 20000 in
 /-- … and 2 is the minimum (antichain: the parallel exits `a → t`, `b → t`) -/
 example : IsMinCover ⟨cyc1.g, srcName, snkName⟩
     (cyc1.g.edges.filter fun e => !cyc1.ignore.contains e) [] 2 :=
   digraph_width_is_min_walk_cover cyc1 (cyc1.weightFunction.getD []) (cyc1.demands.getD []) cyc1Flow
-    cyc1_scc cyc1_live cyc1_closed (by decide) (by decide) (by decide) (by decide) cyc1_flow
+    cyc1_scc cyc1_live cyc1_closed (by decide) (by decide) (by decide) cyc1_flow
     [("a", "t"), ("b", "t")] (by decide) (by decide)
     (cwc_unreachable_of_reachFrom cyc1.g cyc1_closed _ (by decide) (by decide)) (by decide)
 
